@@ -4,4 +4,4 @@ Require Import ExtrOcamlBasic.
 From NV Require Import Isa.Codec Isa.Asm gen.IsaTable.
 Extraction "../build/extract/ex_c11.ml" encode decode table table_list wf_instrb name_of
   disasm_module disasm_function asm_assemble add_string empty_module print_dec print_sdec strtoll names_ok
-  wf_conjuncts wf_moduleb.
+  wf_conjuncts wf_conjuncts_fast wf_moduleb.
